@@ -20,7 +20,7 @@ impl Node {
 
 /// every numeric field a peer controls is below 2^40 (the property's bound)
 pub open spec fn node_ok(n: Node) -> bool { n.index < 0x100_0000_0000 && n.length < 0x100_0000_0000 }
-pub open spec fn nodes_ok(s: Seq<Node>) -> bool { s.len() <= 0x10_0000 && forall|i: int| 0 <= i < s.len() ==> node_ok(#[trigger] s[i]) }
+pub open spec fn nodes_ok(s: Seq<Node>) -> bool { s.len() <= 0x8_0000 && forall|i: int| 0 <= i < s.len() ==> node_ok(#[trigger] s[i]) }
 
 impl NodeQueue {
     pub open spec fn wf(&self) -> bool {
@@ -86,7 +86,10 @@ requires:
 ensures:
     (r is None) == (block is None && hash is None),
     block is Some ==> r->Some_0.index == 2 * block->Some_0.index && r->Some_0.value is Some && r->Some_0.value->Some_0@ == block->Some_0.value@
-        && nodes_same(r->Some_0.nodes@, block->Some_0.nodes@)
+        && nodes_same(r->Some_0.nodes@, block->Some_0.nodes@),
+    block is None && hash is Some ==> r->Some_0.index == hash->Some_0.index && r->Some_0.value is None
+        && nodes_same(r->Some_0.nodes@, hash->Some_0.nodes@)
+sub `(?s)hash\.map\(\|hash\| NormalizedData \{(.*?)\}\)` => `match hash { Some(hash) => Some(NormalizedData {\1}), None => None }`
 @*/
 pub open spec fn nodes_same(a: Seq<Node>, b: Seq<Node>) -> bool {
     a.len() == b.len() && forall|i: int| 0 <= i < a.len() ==> Node::eqv(#[trigger] a[i], b[i])
@@ -128,7 +131,7 @@ impl MerkleTreeChangeset {
     /*@ fn src/tree/merkle_tree_changeset.rs MerkleTreeChangeset::append_root
     tags: C04 C05 C09 C03
     requires:
-        old(self).cs_wf(), old(iter).wf(), node.index == old(iter).index, node_ok(node),
+        old(self).cs_wf(), old(iter).wf(), node.index == old(iter).index, node.index < 0x200_0000_0000 && node.length < 0x100_0000_0000,
         old(self).nodes@.len() <= 0x3f_0000, old(self).roots@.len() < 0x1000,
         old(self).length + old(iter).factor / 2 <= 0x200_0000_0000,
         old(self).byte_length + node.length <= 0x2000_0000_0000_0000
@@ -179,4 +182,130 @@ impl MerkleTreeChangeset {
             assert(self.roots@.drop_last() =~= rs.drop_last().drop_last());
         }
     @*/
+}
+
+impl MerkleTreeChangeset {
+    /*@ fn src/tree/merkle_tree_changeset.rs MerkleTreeChangeset::hash
+    tags: C04 C05
+    result: r
+    ensures:
+        r@ == crypto::h_tree(self.roots@), r@.len() == 32
+    @*/
+    /*@ fn src/tree/merkle_tree_changeset.rs MerkleTreeChangeset::signable
+    tags: C04 C05
+    result: r
+    requires:
+        hash@.len() == 32
+    ensures:
+        // tree namespace, hash of the roots, little-endian length and fork
+        r@ == crypto::spec_signable(hash@, self.length, self.fork)
+    @*/
+    /*@ fn src/tree/merkle_tree_changeset.rs MerkleTreeChangeset::verify_and_set_signature
+    tags: C04 C05 C09
+    result: r
+    ensures:
+        // C04 signature gate: Ok only if the signature parses and verifies, under the given key, over the signable of the
+        // CURRENT roots, length and fork of the changeset; then exactly that hash and signature are recorded
+        r is Ok ==> signature@.len() == 64 && final(self).signature is Some && final(self).signature->Some_0.sig_bytes() == signature@
+            && crypto::sig_ok(*public_key, crypto::spec_signable(crypto::h_tree(old(self).roots@), old(self).length, old(self).fork), final(self).signature->Some_0)
+            && final(self).hash is Some && final(self).hash->Some_0@ == crypto::h_tree(old(self).roots@),
+        r is Err ==> *final(self) == *old(self),
+        final(self).roots == old(self).roots && final(self).nodes == old(self).nodes && final(self).length == old(self).length
+            && final(self).byte_length == old(self).byte_length && final(self).fork == old(self).fork && final(self).upgraded == old(self).upgraded
+            && final(self).ancestors == old(self).ancestors && final(self).batch_length == old(self).batch_length
+            && final(self).original_tree_length == old(self).original_tree_length && final(self).original_tree_fork == old(self).original_tree_fork
+    sub `Signature::try_from\(signature\)` => `Signature::vp_try_from(signature)`
+    @*/
+    /*@ fn src/tree/merkle_tree_changeset.rs MerkleTreeChangeset::hash_and_sign
+    tags: C05 C01
+    ensures:
+        // C05: the stored signature is the Ed25519 signature by the core's key over namespace ++ hash(roots) ++ length ++ fork
+        final(self).hash is Some && final(self).hash->Some_0@ == crypto::h_tree(old(self).roots@),
+        final(self).signature == Some(crypto::spec_sign(*signing_key, crypto::spec_signable(crypto::h_tree(old(self).roots@), old(self).length, old(self).fork))),
+        final(self).roots == old(self).roots && final(self).nodes == old(self).nodes && final(self).length == old(self).length
+            && final(self).byte_length == old(self).byte_length && final(self).fork == old(self).fork && final(self).upgraded == old(self).upgraded
+            && final(self).ancestors == old(self).ancestors && final(self).batch_length == old(self).batch_length
+            && final(self).original_tree_length == old(self).original_tree_length && final(self).original_tree_fork == old(self).original_tree_fork
+    @*/
+}
+
+impl MerkleTreeChangeset {
+    /*@ fn src/tree/merkle_tree_changeset.rs MerkleTreeChangeset::append
+    tags: C01 C05 C03
+    result: r
+    requires:
+        old(self).cs_wf(), old(self).length < 0xff_ffff_ffff, data@.len() < 0x100_0000_0000,
+        old(self).byte_length + data@.len() <= 0x2000_0000_0000_0000, old(self).batch_length < u64::MAX,
+        old(self).nodes@.len() <= 0x3f_0000, old(self).roots@.len() < 0x1000
+    ensures:
+        r == data@.len(), final(self).cs_wf(),
+        // one more block, its bytes added to the byte length (empty blocks included)
+        final(self).length == old(self).length + 1, final(self).byte_length == old(self).byte_length + data@.len(),
+        final(self).batch_length == old(self).batch_length + 1, final(self).upgraded,
+        final(self).ancestors == old(self).ancestors, final(self).fork == old(self).fork,
+        final(self).original_tree_length == old(self).original_tree_length, final(self).original_tree_fork == old(self).original_tree_fork,
+        final(self).hash == old(self).hash, final(self).signature == old(self).signature,
+        final(self).nodes@.len() <= old(self).nodes@.len() + 1 + old(self).roots@.len(),
+        final(self).roots@.len() <= old(self).roots@.len() + 1
+    @*/
+}
+
+// ---- verification of a proof section against the changeset (src/tree/merkle_tree.rs) ----
+pub open spec fn proof_ok(p: &Proof) -> bool {
+    &&& p.block is Some ==> p.block->Some_0.index < 0x100_0000_0000 && p.block->Some_0.value@.len() < 0x100_0000_0000 && nodes_ok(p.block->Some_0.nodes@)
+    &&& p.hash is Some ==> p.hash->Some_0.index < 0x100_0000_0000 && nodes_ok(p.hash->Some_0.nodes@)
+    &&& p.seek is Some ==> p.seek->Some_0.bytes < 0x100_0000_0000 && nodes_ok(p.seek->Some_0.nodes@)
+    &&& p.upgrade is Some ==> p.upgrade->Some_0.start < 0x100_0000_0000 && p.upgrade->Some_0.length < 0x100_0000_0000
+            && nodes_ok(p.upgrade->Some_0.nodes@) && nodes_ok(p.upgrade->Some_0.additional_nodes@) && p.upgrade->Some_0.signature@.len() <= 0x10_0000
+}
+
+/*@ fn src/tree/merkle_tree.rs fn verify_tree
+tags: C04 C09 C03
+result: r
+requires:
+    old(changeset).cs_wf(), old(changeset).nodes@.len() == 0,
+    block is Some ==> block->Some_0.index < 0x100_0000_0000 && block->Some_0.value@.len() < 0x100_0000_0000 && nodes_ok(block->Some_0.nodes@),
+    hash is Some ==> hash->Some_0.index < 0x100_0000_0000 && nodes_ok(hash->Some_0.nodes@),
+    seek is Some ==> nodes_ok(seek->Some_0.nodes@)
+ensures:
+    // only the list of verified nodes grows; nothing a commit would install (roots, length, byte length, fork, signature) is touched
+    final(changeset).roots == old(changeset).roots && final(changeset).length == old(changeset).length
+        && final(changeset).byte_length == old(changeset).byte_length && final(changeset).fork == old(changeset).fork
+        && final(changeset).upgraded == old(changeset).upgraded && final(changeset).signature == old(changeset).signature
+        && final(changeset).hash == old(changeset).hash && final(changeset).ancestors == old(changeset).ancestors
+        && final(changeset).original_tree_length == old(changeset).original_tree_length
+        && final(changeset).original_tree_fork == old(changeset).original_tree_fork && final(changeset).batch_length == old(changeset).batch_length,
+    r is Ok ==> final(changeset).nodes@.len() <= 0x20_0010,
+    r is Ok && r->Ok_0 is Some ==> r->Ok_0->Some_0.index < 0x200_0000_0000
+first:
+    let ghost cs0 = *changeset;
+loop 1:
+    invariant
+        q.wf(), iter.wf(), iter.index < 0x100_0000_0000, current_root.index == iter.index,
+        qnodes_ok(q), q.nodes@.len() <= 0x8_0000, q.extra is None,
+        current_root.length <= (q.i + 1) * 0x100_0000_0000,
+        changeset.nodes@.len() <= 1 + 2 * q.i,
+        verify_frame(changeset, &cs0)
+    decreases q.length
+loop 2:
+    invariant
+        q.wf(), iter.wf(), iter.index < 0x200_0000_0000, current_root.index == iter.index,
+        qnodes_ok(q), q.nodes@.len() <= 0x8_0000,
+        current_root.length + (if q.extra is Some { q.extra->Some_0.length as int } else { 0 }) <= (q.i + 1) * 0x100_0000_0000 + 0x1000_0000_0000_0000,
+        changeset.nodes@.len() <= 0x10_0004 + 2 * q.i + (if q.extra is Some { 0int } else { 2 }),
+        verify_frame(changeset, &cs0)
+    decreases q.length
+before `let node = q.shift(iter.sibling())?;`#1:
+    proof { lemma_index_depth(iter); }
+before `let node = q.shift(iter.sibling())?;`#2:
+    proof { lemma_index_depth(iter); }
+@*/
+/// queue contents stay within the bound on peer-supplied numeric fields
+pub open spec fn qnodes_ok(q: NodeQueue) -> bool {
+    (forall|i: int| 0 <= i < q.nodes@.len() ==> node_ok(#[trigger] q.nodes@[i])) && (q.extra is Some ==> q.extra->Some_0.index < 0x100_0000_0000 && q.extra->Some_0.length <= 0x1000_0000_0000_0000)
+}
+pub open spec fn verify_frame(a: &MerkleTreeChangeset, b: &MerkleTreeChangeset) -> bool {
+    a.roots == b.roots && a.length == b.length && a.byte_length == b.byte_length && a.fork == b.fork && a.upgraded == b.upgraded
+        && a.signature == b.signature && a.hash == b.hash && a.ancestors == b.ancestors && a.original_tree_length == b.original_tree_length
+        && a.original_tree_fork == b.original_tree_fork && a.batch_length == b.batch_length
 }
